@@ -146,6 +146,7 @@ OPS = {
     .sort_values(["x", "y"], ascending=[True, False]),
     "sort_long_stable": lambda pd, np, d, e: pd.DataFrame({"x": [(i * 5 + d["a"].iloc[0]) % 11 for i in range(40)], "y": list(range(40))})
     .sort_values("x", kind="stable"),
+    "between": lambda pd, np, d, e: [d["a"].between(1, 7, inclusive=i) for i in ("both", "left", "right", "neither")],
     "dtype_kinds": lambda pd, np, d, e: [d[c].dtype.kind for c in ["k", "f", "s"]] + [str(d["s"].dtype == "object")],
 }
 
